@@ -4,7 +4,7 @@
    Python code is an explicit lookup whose failure is [Err IndexError]; the three offset-driven main loops run on
    fuel [S (length lines)] and report [Err OutOfFuel] when it runs out. *)
 From Coq Require Import List ZArith String Bool Arith.
-From Verif Require Import Lib.Sexp Model.C12_docstrings Proofs.C12_docstrings Model.C12_regex Gen.C12_regexes Proofs.C12_regex Model.C12_chars Proofs.C12_chars.
+From Verif Require Import Lib.Sexp Model.C12_docstrings Proofs.C12_docstrings Model.C12_regex Gen.C12_regexes Proofs.C12_regex Proofs.C12_regex2 Model.C12_chars Model.C12_run Proofs.C12_chars.
 Import ListNotations.
 Open Scope list_scope. Open Scope nat_scope.
 
@@ -200,3 +200,34 @@ Theorem C12_regex_quantifier_counter_irrelevant :
     m ic (RStar g a) p s c k = star_loop (m ic a) g k n p s c.
 Proof. intros ic R g a p s c k n H. apply star_counter_irrelevant. exact H. Qed.
 Print Assumptions C12_regex_quantifier_counter_irrelevant.
+
+(* ---- criterion A2 (A1, or an iteration "delimiter, then a deterministic rest that the delimiter follows") bounds the
+   steps as well: a deterministic regex calls its continuation at most once where it can do real work, so an
+   iteration costs a polynomial plus the next iteration -- additive, not multiplicative.  For every regex meeting A2,
+   every subject of well-formed characters, every position and every continuation costing at most K per call. ---- *)
+Theorem C12_regex_class_disjointness_sound :
+  forall ic c1 c2 x, cls_disjoint ic c1 c2 = true -> ch_wf x = true ->
+    cls_match ic c1 x = true -> cls_match ic c2 x = false.
+Proof. exact cls_disjoint_sound. Qed.
+Print Assumptions C12_regex_class_disjointness_sound.
+
+Theorem C12_regex_a2_bounded :
+  forall ic (R : Type) r, poly2 ic r = true ->
+    forall n K p s c (k : kontc R), List.length s <= n -> wf_text s ->
+      (forall s', suffix s' s -> forall p' c', fst (k p' s' c') <= K) ->
+      fst (mc ic r p s c k) <= bound2 r n K.
+Proof. exact poly2_bounded. Qed.
+Print Assumptions C12_regex_a2_bounded.
+
+(* every regular expression of the docstring parsers (ASTs regenerated from /repo on every run), every well-formed
+   subject: pattern.match takes at most bound2 steps in the model matcher *)
+Theorem C12_repo_regexes_bounded :
+  forall key x s, In (key, x) all_regexes -> wf_text s ->
+    fst (re_match_c (rx_ic x) (rx_re x) s) <= bound2 (rx_re x) (List.length s) 0.
+Proof. exact repo_regexes_bounded. Qed.
+Print Assumptions C12_repo_regexes_bounded.
+
+(* the subjects the model runs on are well-formed: the decoder of the model's input accepts nothing else *)
+Theorem C12_model_subjects_well_formed : forall s t, dec_text s = Some t -> wf_text t.
+Proof. exact dec_text_wf. Qed.
+Print Assumptions C12_model_subjects_well_formed.
